@@ -193,6 +193,121 @@ example :
         [some (.file [1, 2, 3]), some (.file [9]), some (.file [9]), some (.file [9]), some (.file [9]),
          some (.file [9])] := by decide
 
+/-! ### C13: a destination that did not exist before (or is in any other non-directory state)
+
+  The property's observer clause also covers a FRESH destination: "an observer reading the destination
+  at any moment sees either the complete old or the complete new file" — with no old file, the observer
+  sees no file at all or the complete new one, never an empty or partial one; a failed save leaves no
+  file behind at the destination.  `o` is the state of the destination before the call: `none` (absent),
+  a regular file, or a symlink; only a directory is excluded (rename onto it fails: `renamefail` case of
+  the harness). -/
+
+theorem savePath_spec_any (φ : Fault) (data : Bytes) (dest : Path) (fs : Fs) (o : Option Node)
+    (hd : get fs dest = o) (hnd : o ≠ some .dir)
+    (ht : ∀ t, get fs (tmpOf dest) ≠ some (.symlink t)) :
+    SaveSpecAny dest o data (savePath φ data dest (St.init fs)) := by
+  have hs0 : Stable dest o (St.init fs) := stable_init hd
+  unfold savePath
+  rcases sysCreate_cases φ (tmpOf dest) (St.init fs) ht with e | e
+  · rw [e]; exact Or.inl ⟨rfl, hs0⟩
+  · rw [e]
+    have hs1 : Stable dest o ((St.init fs).step (set (St.init fs).cur (tmpOf dest) (.file []))) :=
+      hs0.step (by rw [get_set_ne _ _ (tmpOf_ne dest)]; exact hd)
+    have hf1 : get ((St.init fs).step (set (St.init fs).cur (tmpOf dest) (.file []))).cur (tmpOf dest)
+        = some (.file []) := by simp only [St.step, get_set_same]
+    have w := writeTmp_spec φ (tmpOf dest) dest _ (tmpOf_ne dest) data _ hf1 hs1
+    exact finish_spec_any φ dest o hnd data _ _ w.1 w.2
+
+theorem savePw_spec_any (φ : Fault) (chunks : List Bytes) (dest : Path) (fs : Fs) (o : Option Node)
+    (hd : get fs dest = o) (hnd : o ≠ some .dir)
+    (ht : ∀ t, get fs (tmpOf dest) ≠ some (.symlink t)) :
+    SaveSpecAny dest o chunks.flatten (savePw φ chunks dest (St.init fs)) := by
+  have hs0 : Stable dest o (St.init fs) := stable_init hd
+  unfold savePw
+  rcases sysCreate_cases φ (tmpOf dest) (St.init fs) ht with e | e
+  · rw [e]; exact finish_spec_any φ dest o hnd _ _ _ hs0 (Or.inr rfl)
+  · rw [e]
+    have hs1 : Stable dest o ((St.init fs).step (set (St.init fs).cur (tmpOf dest) (.file []))) :=
+      hs0.step (by rw [get_set_ne _ _ (tmpOf_ne dest)]; exact hd)
+    have hf1 : get ((St.init fs).step (set (St.init fs).cur (tmpOf dest) (.file []))).cur (tmpOf dest)
+        = some (.file []) := by simp only [St.step, get_set_same]
+    have w := writeChunks_spec φ (tmpOf dest) dest _ (tmpOf_ne dest) chunks _ [] hf1 hs1
+    refine finish_spec_any φ dest o hnd _ _ _ w.1 ?_
+    simpa using w.2
+
+/-- **All-or-nothing, fresh destination** (`xlsx::write`, `write_light`, `csv::write`): when the
+    destination does not exist, the call returns an error and there is still no file at the destination,
+    or it returns Ok and the destination holds exactly `data`. -/
+theorem C13_all_or_nothing_fresh (φ : Fault) (data : Bytes) (dest : Path) (fs : Fs)
+    (hd : get fs dest = none)
+    (ht : ∀ t, get fs (tmpOf dest) ≠ some (.symlink t)) :
+    ((savePath φ data dest (St.init fs)).2 = .err ∧
+        get (savePath φ data dest (St.init fs)).1.cur dest = none) ∨
+    ((savePath φ data dest (St.init fs)).2 = .ok ∧
+        get (savePath φ data dest (St.init fs)).1.cur dest = some (.file data)) := by
+  rcases savePath_spec_any φ data dest fs none hd (by simp) ht with ⟨r, st⟩ | ⟨r, c, _⟩
+  · exact Or.inl ⟨r, st.cur⟩
+  · exact Or.inr ⟨r, c⟩
+
+/-- **Observer, fresh destination**: in EVERY file-system state of the history of a save to a path that
+    did not exist, there is no file at the destination or the complete new file — never an empty or
+    partly written one (the data goes to the temp name; the destination appears only by the rename). -/
+theorem C13_observer_fresh (φ : Fault) (data : Bytes) (dest : Path) (fs : Fs)
+    (hd : get fs dest = none)
+    (ht : ∀ t, get fs (tmpOf dest) ≠ some (.symlink t)) :
+    ∀ s ∈ (savePath φ data dest (St.init fs)).1.states,
+      get s dest = none ∨ get s dest = some (.file data) := by
+  intro s hs
+  rcases savePath_spec_any φ data dest fs none hd (by simp) ht with ⟨_, st⟩ | ⟨_, c, hh⟩
+  · exact Or.inl (st s hs)
+  · simp only [St.states, List.mem_cons] at hs
+    rcases hs with rfl | hs
+    · exact Or.inr c
+    · exact Or.inl (hh s hs)
+
+/-- the same for `write_with_password(_light)` (and, through `setPw`, `set_password`) -/
+theorem C13_observer_password_fresh (φ : Fault) (chunks : List Bytes) (dest : Path) (fs : Fs)
+    (hd : get fs dest = none)
+    (ht : ∀ t, get fs (tmpOf dest) ≠ some (.symlink t)) :
+    ∀ s ∈ (savePw φ chunks dest (St.init fs)).1.states,
+      get s dest = none ∨ get s dest = some (.file chunks.flatten) := by
+  intro s hs
+  rcases savePw_spec_any φ chunks dest fs none hd (by simp) ht with ⟨_, st⟩ | ⟨_, c, hh⟩
+  · exact Or.inl (st s hs)
+  · simp only [St.states, List.mem_cons] at hs
+    rcases hs with rfl | hs
+    · exact Or.inr c
+    · exact Or.inl (hh s hs)
+
+/-- **Any earlier state** (absent, regular file, symlink): the general form of `C13_observer` /
+    `C13_observer_fresh`. -/
+theorem C13_observer_any (φ : Fault) (data : Bytes) (dest : Path) (fs : Fs) (o : Option Node)
+    (hd : get fs dest = o) (hnd : o ≠ some .dir)
+    (ht : ∀ t, get fs (tmpOf dest) ≠ some (.symlink t)) :
+    ∀ s ∈ (savePath φ data dest (St.init fs)).1.states,
+      get s dest = o ∨ get s dest = some (.file data) := by
+  intro s hs
+  rcases savePath_spec_any φ data dest fs o hd hnd ht with ⟨_, st⟩ | ⟨_, c, hh⟩
+  · exact Or.inl (st s hs)
+  · simp only [St.states, List.mem_cons] at hs
+    rcases hs with rfl | hs
+    · exact Or.inr c
+    · exact Or.inl (hh s hs)
+
+/-- non-vacuity: a save to a fresh path whose second write fails: no file at the destination in any
+    state, the temp file removed -/
+example :
+    let fs : Fs := [(['b', '.', 'x'], .file [7])]
+    let out := savePath { noFault with write := callPolicy 1 (some 1) false } [1, 2, 3] ['a', '.', 'x'] (St.init fs)
+    out.2 = .err ∧ out.1.states.map (fun s => get s ['a', '.', 'x']) = List.replicate out.1.states.length none ∧
+      get out.1.cur (tmpOf ['a', '.', 'x']) = none := by decide
+
+/-- non-vacuity: a fault-free save to a fresh path: absent, …, absent, new -/
+example :
+    let fs : Fs := []
+    let out := savePath noFault [1, 2, 3] ['a', '.', 'x'] (St.init fs)
+    out.2 = .ok ∧ out.1.states.map (fun s => get s ['a', '.', 'x']) = [some (.file [1, 2, 3]), none, none, none] := by decide
+
 /-! ### C13: caller-supplied writer -/
 
 /-- **Sink**: `write_writer` (xlsx, light xlsx, csv as fixed) on any sink — failing at any call,
